@@ -277,12 +277,13 @@ Matrix<std::complex<double>> grad_perm(
     Matrix<std::complex<double>> &A, Vector<int> &rows, Vector<int> &cols)
 {
     int n = static_cast<int>(rows.size());
+    int m = static_cast<int>(cols.size());
 
-    Matrix<std::complex<double>> perm_grad(n, n);
+    Matrix<std::complex<double>> perm_grad(n, m);
 
     for (int i = 0; i < n; ++i)
     {
-        for (int j = 0; j < n; ++j)
+        for (int j = 0; j < m; ++j)
         {
             if (rows[i] == 0 || cols[j] == 0)
                 continue;
